@@ -43,7 +43,7 @@ func init() {
 	})
 	register(&PropDef{
 		ID: "C02", Quick: 5000, Thorough: 150000, Level: "exploration",
-		Rule: "part A (rollback erasure): single-client histories in which ~35% of the transactions end in an error (bodies mix successful and failing inserts, updates, merges, deletes, key operations over several blocks) run on collection A while twin B runs the same history without them; after every step Dump(A)==Dump(B)==model, nothing reaches the change stream for a rolled-back transaction; " + ruleSeq,
+		Rule: "part A (even runs, rollback erasure): single-client histories in which ~35% of the transactions end in an error (bodies mix successful and failing inserts, updates, merges, deletes, key operations over several blocks) run on collection A while twin B runs the same history without them; after every step Dump(A)==Dump(B)==model, nothing reaches the change stream for a rolled-back transaction; part B (odd runs, isolation): 1-3 writers park inside their bodies and inside their commits while 1-2 observers read the same rows, Range and Count; every value read under a read latch must equal the committed model state; " + ruleSeq,
 		Gen: func(seed uint64, run int, tier string) *Case {
 			p := seqProfile{minSteps: 4, maxSteps: 24, wTxn: 20, wCreateIndex: 1,
 				wInsert: 8, wAt: 8, wRange: 2, wDelete: 4, wDeleteAll: 1, wKey: 10,
@@ -162,26 +162,46 @@ func init() {
 	})
 	register(&PropDef{
 		ID: "C11", Quick: 5000, Thorough: 150000, Level: "exploration",
-		Rule: "part A: single-client insert/delete churn producing full, sparse and fragmented fill patterns across 64-bit word and 16K block boundaries under every capacity option, with failing insert callbacks and rollbacks; every offset handed to an insert is checked at the moment it is reserved against the model's live and reserved sets and against a churn bound, every row being inserted must expose nothing, Count and the full dump are compared after every step; " + ruleSeq,
+		Rule: "part A (even runs): single-client insert/delete churn producing full, sparse and fragmented fill patterns across 64-bit word and 16K block boundaries under every capacity option, with failing insert callbacks and rollbacks; every offset handed to an insert is checked at the moment it is reserved against the model's live and reserved sets and against a churn bound, every row being inserted must expose nothing, Count and the full dump are compared after every step; part B (odd runs): 2-4 concurrently inserting and deleting threads under the controlled scheduler (hook after an insert reserved its offset), same reservation oracle, Count and dump at quiescence; " + ruleSeq,
 		Gen: func(seed uint64, run int, tier string) *Case {
 			p := seqProfile{minSteps: 6, maxSteps: 40, wTxn: 20,
 				wInsert: 14, wAt: 3, wRange: 1, wDelete: 8, wDeleteAll: 2,
 				pAbort: 0.15, pFailInsert: 0.15, pMerge: 0.3, maxCols: 5, multiBlock: 0.6}
+			if run%2 == 1 {
+				return genConc("C11", seed, run, concProfile{minWriters: 2, maxWriters: 4, minReaders: 0, maxReaders: 1, maxTxns: 4, maxOps: 4,
+					wUpdate: 2, wMerge: 1, wInsert: 12, wDeleteOwn: 8, wRangeRead: 1, wPointRead: 1,
+					pAbort: 0.15, pFailInsert: 0.15, multiBlock: 0.5, maxCols: 4, stableRows: [2]int{1, 4}}, knownAvoid("C11", seed, run))
+			}
 			return genSeq("C11", seed, run, p, knownAvoid("C11", seed, run))
 		},
-		Exec: func(cs *Case) *World { return runSeq(cs, seqOracles{dump: true}) },
+		Exec: func(cs *Case) *World {
+			if cs.World == "conc" {
+				return runConc(cs, concOracles{})
+			}
+			return runSeq(cs, seqOracles{dump: true})
+		},
 		Real: realComponents, Stub: seqStub,
 	})
 	register(&PropDef{
 		ID: "C12", Quick: 5000, Thorough: 150000, Level: "exploration",
-		Rule: "part A: single-client histories of InsertKey/UpsertKey/QueryKey/DeleteKey/SetKey over a 3-6 key alphabet (forcing repeats), several key operations per transaction, rollbacks, restarts; every return value is judged against the committed key map at issue time and after every step the key-map invariants (one live row per key, lookup reaches exactly that row, deleted/re-keyed keys do not resolve) are checked through QueryKey probes of the whole alphabet; " + ruleSeq,
+		Rule: "part A (even runs): single-client histories of InsertKey/UpsertKey/QueryKey/DeleteKey/SetKey over a 3-6 key alphabet (forcing repeats), several key operations per transaction, rollbacks, restarts; every return value is judged against the committed key map at issue time and after every step the key-map invariants (one live row per key, lookup reaches exactly that row, deleted/re-keyed keys do not resolve) are checked through QueryKey probes of the whole alphabet; part B (odd runs): 2-4 threads issue key operations concurrently (hook between the existence check and the insert), return values judged when no commit is in flight, one-live-row-per-key checked the moment each key write commits; " + ruleSeq,
 		Gen: func(seed uint64, run int, tier string) *Case {
 			p := seqProfile{minSteps: 6, maxSteps: 36, wTxn: 20, wRestart: 1,
 				wAt: 4, wRange: 1, wDelete: 3, wKey: 20,
 				pAbort: 0.15, pFailInsert: 0.1, pMerge: 0.3, maxCols: 4, multiBlock: 0.3, pKeyCol: 1}
+			if run%2 == 1 {
+				return genConc("C12", seed, run, concProfile{minWriters: 2, maxWriters: 4, minReaders: 0, maxReaders: 1, maxTxns: 4, maxOps: 3,
+					wUpdate: 1, wRangeRead: 1, wPointRead: 1, wKey: 14,
+					pAbort: 0.1, pFailInsert: 0.1, maxCols: 3, pKeyCol: 1, sharedKeys: 1, stableRows: [2]int{2, 4}}, knownAvoid("C12", seed, run))
+			}
 			return genSeq("C12", seed, run, p, knownAvoid("C12", seed, run))
 		},
-		Exec: func(cs *Case) *World { return runSeq(cs, seqOracles{dump: true}) },
+		Exec: func(cs *Case) *World {
+			if cs.World == "conc" {
+				return runConc(cs, concOracles{})
+			}
+			return runSeq(cs, seqOracles{dump: true})
+		},
 		Real: realComponents, Stub: seqStub,
 	})
 	register(&PropDef{
